@@ -135,8 +135,14 @@ theorem decodeRegions_length (n : Nat) (b : Bytes) : (decodeRegions n b).length 
   | zero => rfl
   | succ n ih => simp [decodeRegions, ih]
 
+/-- what `ParseFlashDescriptor` guarantees about the 4 KiB descriptor: the three parsed structures lie
+    inside it and the region table has its 15 entries (it is a `[15]FlashRegion`) -/
+def DescWf (d : Descriptor) : Prop :=
+  d.region.regions.length = 15 ∧ d.buf.length = 4096 ∧ d.mapStart + 16 ≤ 4096 ∧ d.regionStart + 64 ≤ 4096 ∧
+    d.masterStart + 12 ≤ 4096
+
 theorem parseDescriptorG_post (buf : Bytes) (m : Meter) :
-    Post (parseDescriptorG buf) m (fun d _ => d.region.regions.length = 15) := by
+    Post (parseDescriptorG buf) m (fun d _ => DescWf d) := by
   unfold parseDescriptorG
   split
   · exact post_err
@@ -167,13 +173,19 @@ theorem parseDescriptorG_post (buf : Bytes) (m : Meter) :
           · exact post_err
           · refine post_bind (post_binaryReadG ?_)
             intro _
-            exact post_pure (decodeRegions_length _ _)
+            refine post_pure ⟨decodeRegions_length _ _, hlen, ?_, ?_, ?_⟩
+            · simp only []; omega
+            · simp only [DescMap.regionBase]; omega
+            · simp only [DescMap.masterBase]; omega
 
 /-! ### regions -/
 
 def RegionWf : Region → Prop
   | .bios b => BiosWf b
   | _ => True
+
+/-- a region of a flash image: well formed, and it has its `FlashRegion` (the pointer is never nil) -/
+def RegionWfF (r : Region) : Prop := RegionWf r ∧ r.fr.isSome = true
 
 /-- a region the table walk accepted: it has a table entry and lies inside the image -/
 def RegionOk (len : Nat) (r : Region) : Prop :=
@@ -266,13 +278,13 @@ theorem mem_sortRegions (x : Region) (l : List Region) (hx : x ∈ sortRegions l
 
 theorem fillGapsG_post (fbuf : Bytes) (rs : List Region) (offset : Nat) (m : Meter)
     (hrs : ∀ x ∈ rs, RegionOk fbuf.length x) (ho : offset ≤ fbuf.length) :
-    Post (fillGapsG fbuf fbuf.length rs offset) m (fun out _ => ∀ x ∈ out, RegionWf x) := by
+    Post (fillGapsG fbuf fbuf.length rs offset) m (fun out _ => ∀ x ∈ out, RegionWfF x) := by
   induction rs generalizing offset m with
   | nil =>
     rw [fillGapsG]
     split
     · refine post_bind (post_sliceG ⟨ho, Nat.le_refl _⟩ ?_)
-      exact post_pure (by intro x hx; simp at hx; subst hx; trivial)
+      exact post_pure (by intro x hx; simp at hx; subst hx; exact ⟨trivial, rfl⟩)
     · exact post_pure (by simp)
   | cons r rs ih =>
     rw [fillGapsG]
@@ -282,10 +294,10 @@ theorem fillGapsG_post (fbuf : Bytes) (rs : List Region) (offset : Nat) (m : Met
     split
     · exact post_err
     · rename_i hnb
-      refine post_bind' (R := fun g _ => ∀ x ∈ g, RegionWf x) ?_ ?_
+      refine post_bind' (R := fun g _ => ∀ x ∈ g, RegionWfF x) ?_ ?_
       · split
         · refine post_bind (post_sliceG ⟨by omega, by omega⟩ ?_)
-          exact post_pure (by intro x hx; simp at hx; subst hx; trivial)
+          exact post_pure (by intro x hx; simp at hx; subst hx; exact ⟨trivial, rfl⟩)
         · exact post_pure (by simp)
       · intro gap m1 hgap
         refine post_bind' (ih _ _ (fun x hx => hrs x (by simp [hx])) heo) ?_
@@ -295,16 +307,18 @@ theorem fillGapsG_post (fbuf : Bytes) (rs : List Region) (offset : Nat) (m : Met
         simp only [List.mem_append, List.mem_cons] at hx
         rcases hx with hx | hx | hx
         · exact hgap x hx
-        · subst hx; exact hwf
+        · subst hx; exact ⟨hwf, by rw [hfr]; rfl⟩
         · exact hout x hx
 
+def FlashWf (f : Flash) : Prop := DescWf f.ifd ∧ ∀ r ∈ f.regions, RegionWfF r
+
 def TreeWf : Tree → Prop
-  | .flash f => ∀ r ∈ f.regions, RegionWf r
+  | .flash f => FlashWf f
   | .bios b => BiosWf b
 
 theorem parseFlashG_post (h : HooksG) (hcodec : CodecBounded h) (hnvar : NvarOk h) (z : Nat)
     (buf : Bytes) (st : St) (m : Meter) (hb : buf.length < 2^63) :
-    Post (parseFlashG h z buf st) m (fun r _ => ∀ x ∈ r.1.regions, RegionWf x) := by
+    Post (parseFlashG h z buf st) m (fun r _ => FlashWf r.1) := by
   unfold parseFlashG
   split
   · exact post_err
@@ -313,7 +327,8 @@ theorem parseFlashG_post (h : HooksG) (hcodec : CodecBounded h) (hnvar : NvarOk 
     refine post_bind (post_allocG ?_)
     refine post_bind (post_sliceToG (by omega) ?_)
     refine post_bind' (parseDescriptorG_post _ _) ?_
-    intro ifd m1 h15
+    intro ifd m1 hd
+    have h15 := hd.1
     have h0 : 0 < ifd.region.regions.length := by omega
     rw [List.getElem?_eq_getElem h0]
     try simp only []
@@ -325,7 +340,7 @@ theorem parseFlashG_post (h : HooksG) (hcodec : CodecBounded h) (hnvar : NvarOk 
       · intro x hx
         exact hrs x (mem_sortRegions x rs hx)
       · intro rs' m3 hout
-        exact post_pure hout
+        exact post_pure ⟨hd, hout⟩
 
 theorem parseWithG_post (h : HooksG) (hcodec : CodecBounded h) (hnvar : NvarOk h) (z : Nat)
     (buf : Bytes) (st : St) (m : Meter) (hb : buf.length < 2^63) :
